@@ -39,6 +39,14 @@ pub enum Plan
     },
     /// TMPDIR really on another filesystem: every rename fails with EXDEV
     CrossFs,
+    /// an I/O failure and, later in the same run, a stop signal or a kill
+    FailThen
+    {
+        pos1: u16,
+        errno: u8,
+        pos2: u16,
+        kill: bool,
+    },
 }
 
 #[derive(Clone, Debug, PartialEq, Eq, Hash, Serialize, Deserialize)]
@@ -97,6 +105,7 @@ fn plan() -> BoxedStrategy<Plan>
         2 => (any::<u16>(), any::<bool>()).prop_map(|(pos, int)| Plan::Sig { pos, int }),
         2 => any::<u16>().prop_map(|pos| Plan::Kill { pos }),
         1 => Just(Plan::CrossFs),
+        2 => (any::<u16>(), any::<u8>(), any::<u16>(), any::<bool>()).prop_map(|(pos1, errno, pos2, kill)| Plan::FailThen { pos1, errno, pos2, kill }),
     ]
     .boxed()
 }
@@ -520,6 +529,22 @@ pub fn check(h: &History) -> CaseOutcome
                                 },
                                 Plan::Sig { pos, int } => format!("sig:{}:{}", pick(*pos).k, if *int { 2 } else { 15 }),
                                 Plan::Kill { pos } => format!("kill:{}", pick(*pos).k),
+                                Plan::FailThen { pos1, errno, pos2, kill } =>
+                                {
+                                    let a = pick(*pos1);
+                                    let ea = applicable_errnos(&a.kind, a.flags);
+                                    // the second event comes strictly later
+                                    let later: Vec<&&TraceOp> = ops.iter().filter(|t| t.k > a.k).collect();
+                                    let b = if later.is_empty() { a.k + 1 } else { later[idx16(*pos2, later.len())].k };
+                                    if *kill
+                                    {
+                                        format!("fail:{}:{};kill:{}", a.k, ea[*errno as usize % ea.len()], b)
+                                    }
+                                    else
+                                    {
+                                        format!("fail:{}:{};sig:{}:{}", a.k, ea[*errno as usize % ea.len()], b, if *errno % 2 == 0 { 15 } else { 2 })
+                                    }
+                                },
                                 Plan::None | Plan::CrossFs => unreachable!(),
                             })
                         }
@@ -560,6 +585,7 @@ pub fn check(h: &History) -> CaseOutcome
                     Plan::Sig { .. } => "edit-stop-signal",
                     Plan::Kill { .. } => "edit-killed",
                     Plan::CrossFs => "edit-cross-filesystem-tmpdir",
+                    Plan::FailThen { .. } => "edit-io-failure-then-signal-or-kill",
                 });
                 let newly = observe(&w, &mut ghost, &mut o, &log, step);
                 if newly > 0 && armed
@@ -643,7 +669,7 @@ pub fn run(env: &Env, rec: &Recorder) -> (String, Vec<&'static str>)
 {
     pbt_opts(env, rec, "histories", env.cases(1500, 30000), 300, &strategy, &check);
     (
-        "histories of 4-25 operations over a project of 1-4+ files with the lock in use (absent at first, or pre-existing with a small, digit-boundary or near-u32::MAX value) and never touched by the developer: add statement / delete statement (biased to the highest ID) / move a statement with its ID to another file / add file / delete file / save the configuration file again (newer timestamp) / --check / edit run carrying a fault plan (none 50 %, one or two injected I/O failures, SIGTERM/SIGINT, SIGKILL, or TMPDIR really on another filesystem, also combined with a fault plan; positioned by a fraction mapped onto the operation count of a recording run on a copy). Ghost map ID -> statement identity (unique marker in each message); after every run the harness's own scanner reads the tree: an ID seen with a different statement than before is a reuse; after every edit run, however it ended, a parsable lock must be ahead of every ID ever written; --check must change nothing. Non-trivial = distinct history where a faulted/interrupted edit that inserted IDs, or the deletion of the statement with the highest ID, is followed by a later edit that inserts IDs".to_string(),
+        "histories of 4-25 operations over a project of 1-4+ files with the lock in use (absent at first, or pre-existing with a small, digit-boundary or near-u32::MAX value) and never touched by the developer: add statement / delete statement (biased to the highest ID) / move a statement with its ID to another file / add file / delete file / save the configuration file again (newer timestamp) / --check / edit run carrying a fault plan (none 50 %, one or two injected I/O failures, SIGTERM/SIGINT, SIGKILL, an I/O failure followed later in the same run by a stop signal or a kill, or TMPDIR really on another filesystem, also combined with a fault plan; positioned by a fraction mapped onto the operation count of a recording run on a copy). Ghost map ID -> statement identity (unique marker in each message); after every run the harness's own scanner reads the tree: an ID seen with a different statement than before is a reuse; after every edit run, however it ended, a parsable lock must be ahead of every ID ever written; --check must change nothing. Non-trivial = distinct history where a faulted/interrupted edit that inserted IDs, or the deletion of the statement with the highest ID, is followed by a later edit that inserts IDs".to_string(),
         vec!["developer copy/paste of a statement together with its ID is not generated (duplicates not caused by the tool)", "the developer never edits or deletes Breadlog.lock", "once any ID has been written the lock file must exist, parse and be ahead of every ID ever written (the tool itself creates it before it modifies the first file)"],
     )
 }
